@@ -6,8 +6,8 @@
 namespace {
 
 using SF = cocls::shared_future<Counted>;
-enum Ctor { C_PROMISE_FN = 0, C_FUTURE_FN_PENDING, C_FUTURE_FN_READY, C_DEFAULT_GETPROMISE, C_NK };
-static const char *ctor_names[] = {"promfn", "futfn", "futready", "getpromise"};
+enum Ctor { C_PROMISE_FN = 0, C_FUTURE_FN_PENDING, C_FUTURE_FN_READY, C_DEFAULT_GETPROMISE, C_PROMISE_FN_THREAD, C_FUTURE_FN_THREAD, C_NK };
+static const char *ctor_names[] = {"promfn", "futfn", "futready", "getpromise", "promfn-thread", "futfn-thread"};
 enum RKind { R_VAL = 0, R_EXC, R_DROP, R_NK };
 static const char *rk_names[] = {"val", "exc", "drop"};
 enum Script { S_WAIT = 0, S_CORO, S_COPYDROP, S_DROP, S_POLL, S_NK };
@@ -76,7 +76,22 @@ static void scenario(int ctor, int rk, int nh, const int *scripts, int main_drop
     {
         cocls::promise<Counted> saved;
         std::unique_ptr<SF> sf;
+        vstd::thread early_rt;  // resolver started from inside the constructor's function: races with the rest of the construction
+        auto resolve_now = [rk](cocls::promise<Counted> p) {
+            return [rk, p = std::move(p)]() mutable {
+                vrt_label("resolver");
+                switch (rk) {
+                    case R_VAL: p(Counted(42)); break;
+                    case R_EXC: p(std::make_exception_ptr(TestError(77))); break;
+                    default: p(cocls::drop); break;
+                }
+            };
+        };
         switch (ctor) {
+            case C_PROMISE_FN_THREAD: sf.reset(new SF([&](cocls::promise<Counted> p) { early_rt = vstd::thread(resolve_now(std::move(p))); })); break;
+            case C_FUTURE_FN_THREAD:
+                sf.reset(new SF([&] { return cocls::future<Counted>([&](cocls::promise<Counted> p) { early_rt = vstd::thread(resolve_now(std::move(p))); }); }));
+                break;
             case C_PROMISE_FN: sf.reset(new SF([&](cocls::promise<Counted> p) { saved = std::move(p); })); break;
             case C_FUTURE_FN_PENDING:
                 sf.reset(new SF([&] { return cocls::future<Counted>([&](cocls::promise<Counted> p) { saved = std::move(p); }); }));
@@ -99,7 +114,7 @@ static void scenario(int ctor, int rk, int nh, const int *scripts, int main_drop
         if (main_drop == M_EARLY) sf.reset();
         rt = vstd::thread([&] {
             vrt_label("resolver");
-            if (ctor == C_FUTURE_FN_READY) return;
+            if (ctor == C_FUTURE_FN_READY || ctor == C_PROMISE_FN_THREAD || ctor == C_FUTURE_FN_THREAD) return;
             switch (rk) {
                 case R_VAL: saved(Counted(42)); break;
                 case R_EXC: saved(std::make_exception_ptr(TestError(77))); break;
@@ -112,6 +127,7 @@ static void scenario(int ctor, int rk, int nh, const int *scripts, int main_drop
             observe(*sf, 3);
         }
         rt.join();
+        if (early_rt.joinable()) early_rt.join();
         vrt_label("main-join-handles");
         for (int i = 0; i < nh; i++) ht[i].join();
         vrt_label("main");
@@ -153,6 +169,22 @@ VRT_REGISTER(reg_sf) {
                         });
                     }
             }
+    // copies made after init_if_needed() share the state that get_promise() later resolves
+    vrt::add("sf_init_copy_getpromise", [] {
+        {
+            SF a;
+            a.init_if_needed();
+            SF b = a;
+            cocls::promise<Counted> p = a.get_promise();
+            SF c = a;
+            p(Counted(5));
+            VRT_CHECK(a.ready() && a.value().a == 5, "shared_future/getpromise-not-working", "original not resolved by its own promise");
+            VRT_CHECK(b.ready() && b.value().a == 5, "shared_future/different-results", "a copy made after init_if_needed() does not observe the result (ready=%d)", (int)b.ready());
+            VRT_CHECK(c.ready() && c.value().a == 5, "shared_future/different-results", "a copy made after get_promise() does not observe the result");
+        }
+        VRT_CHECK(Counted::live() == 0, "shared_future/value-lifetime", "%ld stored values alive at the end", (long)Counted::live());
+        vrt_outcome("ok");
+    });
     // copy-before-init: copies of a default-constructed shared_future are independent empty handles
     vrt::add("sf_copy_before_init", [] {
         SF a;
